@@ -91,8 +91,10 @@ def categorize(toks, kind, style=None):
         return 'newline-as-whitespace'
     if sign_run(toks) and '^' in toks and kind in ('value',):
         return 'sign-run-next-to-power'
-    if sign_run(toks) and '"s"' in toks and kind in ('value',):
-        return 'sign-run-before-text'
+    if sign_run(toks) and kind in ('value',):
+        # the folded run is a single + (which leaves its operand as it is) where Excel
+        # negates twice (which makes a number of a logical and fails on text)
+        return 'sign-run-before-a-value-that-is-not-a-number'
     return None
 
 
